@@ -194,7 +194,7 @@ class Runner:
         self._put(op["path"], op.get("content"))
 
     # ------------------------------------------------------------------ runs
-    def run(self, ops: list, seed: int = 0, opts: dict | None = None) -> dict:
+    def run(self, ops: list, seed: int = 0, opts: dict | None = None, keep_logs: bool = False) -> dict:
         try:
             res = run_child(self.root, ops, seed, self.timeout_s, opts)
         except ChildFailure:
@@ -202,7 +202,7 @@ class Runner:
             snapshot = dict(self.state)
             self.materialise(snapshot)
             raise
-        if any(op["op"] == "cli" for op in ops):
+        if any(op["op"] == "cli" for op in ops) and not keep_logs:
             logs = os.path.join(self.root, "logs")
             if os.path.islink(logs) or os.path.isfile(logs):
                 os.remove(logs)
@@ -234,6 +234,8 @@ class Runner:
             names = [n for n in names if n]
         else:
             names = []
+        if op.get("stdin_pipe"):
+            names.append(op["stdin_pipe"])
         return sorted({os.path.normpath(n) for n in names})
 
     def reference(self, op, seed: int = 0, opts: dict | None = None):
@@ -260,6 +262,8 @@ class Runner:
     def _content_digest(self, name):
         if name in self.state:
             return util.digest(self.state[name])
+        if os.path.isabs(name):
+            return "abs:" + name  # /dev/null, /dev/stdin ...: never read by the harness
         # a name that is not a key of the world (a path through a symlink or with ..): ask the disk
         p = os.path.join(self.root, name)
         try:
